@@ -39,7 +39,7 @@ def check(ctx, replay=None):
                  simulate="num=%d" % (4000 if th else 600), extra=["-depth", "41", "-seed", str(ctx.seed)])]
     res = ctx.tlc_many(jobs, parallel=3)
     if res[0]["violated"]:
-        ctx.note("TLC: %s violated (model level)" % res[0]["violated"])
+        raise vlib.Machinery("TLC: %s violated: the specification of the unchanged design does not satisfy its own invariant" % res[0]["violated"])
     for r in res[1:]:
         ctx.cov["states"] -= r["distinct"]
         ctx.cov["transitions"] -= r["generated"]
